@@ -144,6 +144,13 @@ class BuiltinCalls:
             return Top(q)
         if q.startswith("statistics.NormalDist."):
             return self.normal_method(name.split(".")[-1], fv.bound, args, node, state)
+        if q == "operator.itemgetter()":
+            return I.load_subscript(args[0], fv.bound, node, state) if args else Bottom()
+        if q == "operator.attrgetter()":
+            if args and isinstance(fv.bound, Str) and fv.bound.const is not None and "." not in fv.bound.const:
+                return I.load_attr(args[0], fv.bound.const, node, state)
+            I.note_undecided("operator.attrgetter with a non-constant or dotted name", node)
+            return Top("attrgetter")
         if q.startswith("operator."):
             return self.operator_call(name, args, node, state)
         if q.startswith("sys."):
@@ -200,6 +207,12 @@ class BuiltinCalls:
             return Opaque("object", True)
         if ext == "builtin.type":
             return self.class_of(args[0], state) if len(args) == 1 else Top("type()")
+        if ext == "collections.defaultdict":
+            p_ = I.alloc(state, DictObj(flags=frozenset({"defaultdict"})), node, "defaultdict")
+            I.default_factories[p_.loc] = args[0] if args else NoneV()
+            return p_
+        if ext == "collections.OrderedDict" and not args and not kwargs:
+            return I.alloc(state, DictObj(), node, "dict")
         if ext == "statistics.NormalDist":
             return I.alloc(state, ExtInst("statistics.NormalDist", tuple(args) + tuple(kwargs.values())), node, "NormalDist", origin="global" if not I.stack or I.stack[-1].fi is None else None)
         if name in ("TypeError", "ValueError") or name.endswith("Error") or name.endswith("Exception") or name.endswith("Warning"):
@@ -1154,8 +1167,6 @@ class BuiltinCalls:
             return I.compare(cmps[name](), args[0], args[1], node, state)
         if name == "itemgetter" and len(args) == 1:
             return ExtV(qual="operator.itemgetter()", bound=args[0])
-        if name == "itemgetter()":
-            return I.load_subscript(args[0], self_bound(args), node, state)
         if name == "attrgetter" and len(args) == 1:
             return ExtV(qual="operator.attrgetter()", bound=args[0])
         I.note_undecided(f"operator.{name} not modelled", node)
